@@ -88,3 +88,51 @@ Definition identity_v0 (x : input) : bool :=
   dest_ok (binding x) (dest x) addrs
   && for_me_v0 (rs x) (me x)
   && recipient_ok (conv x) addrs (recip x).
+
+(* ---------------------------------------------------------------------------------------------
+   Sequences of calls on long-lived provider objects (several objects, possibly with different
+   configurations, living in one process).
+
+   As coded, neither Base.service_urls nor Config.endpoint nor parse_authn_request_response keeps
+   anything between calls that the addressing checks read, and provider objects share nothing:
+   return_addrs is recomputed from the object's OWN configuration on every call
+   (client_base.py: `"return_addrs": self.service_urls(binding=binding)`,
+    `service_urls`: `_res = self.config.endpoint("assertion_consumer_service", binding, "sp")`).
+   The trace model therefore maps every call to its result independently of the calls before it;
+   the correspondence check validates exactly this against the real objects. *)
+
+(* Base.service_urls(binding): the endpoint list, or None when it is empty *)
+Definition service_urls (specs : list epspec) (binding : string) : option (list string) :=
+  match endpoint specs binding with [] => None | l => Some l end.
+
+(* StatusResponse.__init__: self.return_addrs = return_addrs or [] *)
+Definition return_addrs (specs : list epspec) (binding : string) : list string :=
+  match service_urls specs binding with Some l => l | None => [] end.
+
+(* create_authn_request: AssertionConsumerServiceURL = (service_urls(binding) or [None])[0] *)
+Definition request_acs_url (specs : list epspec) (binding : string) : option string :=
+  match return_addrs specs binding with [] => None | u :: _ => Some u end.
+
+(* one call on one provider object; the object's configuration travels with the call
+   (me/specs of an [input]; the configured endpoint list of the service asked for otherwise) *)
+Inductive op :=
+| OParse (x : input)                                  (* parse_authn_request_response *)
+| OUrls (specs : list epspec) (binding : string)      (* Base.service_urls(binding) *)
+| OEndp (specs : list epspec) (binding : string)      (* Config.endpoint(service, binding, "sp"); specs = list configured for that service *)
+| OAcs (specs : list epspec) (binding : string).      (* create_authn_request(.., binding=binding): the ACS URL put into the request *)
+
+Inductive out :=
+| RId (b : bool)
+| RUrls (o : option (list string))
+| REndp (l : list string)
+| RAcs (o : option string).
+
+Definition step (o : op) : out :=
+  match o with
+  | OParse x => RId (identity x)
+  | OUrls specs b => RUrls (service_urls specs b)
+  | OEndp specs b => REndp (endpoint specs b)
+  | OAcs specs b => RAcs (request_acs_url specs b)
+  end.
+
+Definition run_ops (l : list op) : list out := map step l.
